@@ -96,8 +96,20 @@ pub mod shims {
     impl<'a> VErr for &'a std::io::Error {}
     #[verifier::external_body]
     pub(crate) fn eprint_err<E: VErr>(error_code: ErrorCode, msg: &str, err: &E) { unimplemented!() }
-    pub struct State { _o: () }
+    /// SHIM for std::time::Duration (only compared with ZERO_DURATION here): a number of nanoseconds
+    pub type VDuration = u128;
+    pub const ZERO_DURATION: VDuration = 0;
+    pub struct WriteMode { _o: () }
+    pub uninterp spec fn flush_interval_of(m: WriteMode) -> VDuration;
+    impl WriteMode {
+        #[verifier::external_body]
+        pub(crate) fn get_flush_interval(&self) -> (r: VDuration) ensures r == flush_interval_of(*self) { unimplemented!() }
+    }
+    pub struct FileLogWriterConfig { pub line_ending: &'static [u8], pub write_mode: WriteMode }
+    pub struct State { pub cfg: FileLogWriterConfig }
     impl State {
+        #[verifier::external_body]
+        pub fn config(&self) -> (r: &FileLogWriterConfig) ensures *r == self.cfg { unimplemented!() }
         // the synchronous arm is decided in unit `handle`; here every function requires the Async arm
         #[verifier::external_body]
         pub fn write_buffer(&mut self, buf: &[u8]) -> (r: std::io::Result<()>) requires false { unimplemented!() }
@@ -116,6 +128,31 @@ pub mod util {
     //@ item src/util.rs const ASYNC_SHUTDOWN
     //@   bytesconst
 }
+pub mod state {
+    use super::*;
+    use super::shims::*;
+    use std::sync::{Arc, Mutex};
+    use std::thread::JoinHandle;
+    use {crossbeam_channel::Sender, crossbeam_queue::ArrayQueue};
+    /// token fact / permission: the flusher thread is started (only) with the configured, non-zero interval
+    pub uninterp spec fn flusher_ok(d: VDuration) -> bool;
+    pub uninterp spec fn flusher_started() -> bool;
+    /// oracle: the writer thread's channel was made for this state, message capacity and pool
+    pub uninterp spec fn writer_of(s: Sender<Vec<u8>>) -> (Arc<Mutex<State>>, usize, Arc<ArrayQueue<Vec<u8>>>);
+    #[verifier::external_body]
+    pub(crate) fn start_async_fs_writer(am_state: Arc<Mutex<State>>, message_capa: usize, a_pool: Arc<ArrayQueue<Vec<u8>>>) -> (r: (Sender<Vec<u8>>, Mutex<Option<JoinHandle<()>>>))
+        ensures writer_of(r.0) == (am_state, message_capa, a_pool)
+    { unimplemented!() }
+    #[verifier::external_body]
+    pub(crate) fn start_async_fs_flusher(async_writer: Sender<Vec<u8>>, flush_interval: VDuration)
+        requires
+            flusher_ok(flush_interval), //@label start_async_fs_flusher.perm C04
+        ensures flusher_started(),
+    { unimplemented!() }
+}
+pub assume_specification<T>[ crossbeam_queue::ArrayQueue::<T>::new ](cap: usize) -> (r: crossbeam_queue::ArrayQueue<T>);
+pub assume_specification<T>[ <crossbeam_channel::Sender<T> as Clone>::clone ](s: &crossbeam_channel::Sender<T>) -> (r: crossbeam_channel::Sender<T>)
+    ensures r == *s;
 pub mod state_handle {
     use super::*;
     use super::shims::*;
@@ -126,7 +163,7 @@ pub mod state_handle {
     use std::io::Write;
     use {crossbeam_channel::Sender, crossbeam_queue::ArrayQueue};
     type FormatFunction = VFormatFn;
-    broadcast use ax_send_msg_ok, ax_pooled_empty, ax_to_owned_u8, ax_extend_u8_slice, ax_pool_push_ok;
+    broadcast use ax_send_msg_ok, ax_pooled_empty, ax_to_owned_u8, ax_extend_u8_slice, ax_pool_push_ok, ax_same_val;
 
     //@ item src/writers/file_log_writer/state_handle.rs enum StateHandle
     //@   dropattr #[derive
@@ -148,6 +185,16 @@ pub mod state_handle {
     impl AsyncHandle {
         pub closed spec fn ending(&self) -> Seq<u8> { self.line_ending@ }
         pub closed spec fn fmt(&self) -> VFormatFn { self.format_function }
+        pub closed spec fn capa(&self) -> usize { self.message_capa }
+        pub closed spec fn made_for(&self) -> (Arc<Mutex<State>>, usize, Arc<ArrayQueue<Vec<u8>>>) { super::state::writer_of(self.sender) }
+        pub closed spec fn parts(&self) -> (Arc<Mutex<State>>, Arc<ArrayQueue<Vec<u8>>>) { (self.am_state, self.a_pool) }
+    //@ fn src/writers/file_log_writer/state_handle.rs impl AsyncHandle / fn new
+    //@   ret r
+    //@   props C20,C15,C04
+    //@   req[AsyncHandle::new.pre.perm] forall|d: VDuration| #[trigger] super::state::flusher_ok(d) <==> (d == flush_interval_of(state.cfg.write_mode) && d != 0)
+    //@   ens[AsyncHandle::new.post.framing] r.fmt() == format_function && r.ending() == state.cfg.line_ending@ && r.capa() == message_capa
+    //@   ens[AsyncHandle::new.post.thread] r.made_for() == (r.parts().0, message_capa, r.parts().1)
+    //@   ens[AsyncHandle::new.post.flusher] flush_interval_of(state.cfg.write_mode) != 0 ==> super::state::flusher_started()
     //@ fn src/writers/file_log_writer/state_handle.rs impl AsyncHandle / fn write
     //@   ret r
     //@   props C20,C15
@@ -163,7 +210,20 @@ pub mod state_handle {
     //@   closure ~Vec::with_capacity ## ens r@.len() == 0
     //@   ens[pop_buffer.post.empty] r@.len() == 0
     }
+    /// token fact: only joining the writer thread establishes it (R21 shim for `th.join().ok()`)
+    pub uninterp spec fn joined() -> bool;
+    #[verifier::external_body]
+    pub fn vjoin(th: JoinHandle<()>) -> (r: Option<()>)
+        ensures joined()
+    { th.join().ok() }
     impl StateHandle {
+        pub closed spec fn thread_lock_poisoned(&self) -> bool { mutex_poisoned(&self->Async_0.mo_thread_handle) }
+        pub closed spec fn thread_present(&self) -> bool { (*mutex_content(&self->Async_0.mo_thread_handle)) is Some }
+    //@ fn src/writers/file_log_writer/state_handle.rs impl StateHandle / fn new_async
+    //@   ret r
+    //@   props C20,C15
+    //@   req[new_async.pre.perm] forall|d: VDuration| #[trigger] super::state::flusher_ok(d) <==> (d == flush_interval_of(state.cfg.write_mode) && d != 0)
+    //@   ens[StateHandle::new_async.post] r is Async && r->Async_0.fmt() == format_function && r->Async_0.ending() == state.cfg.line_ending@ && r->Async_0.capa() == message_capa
     //@ fn src/writers/file_log_writer/state_handle.rs impl StateHandle / fn plain_write
     //@   ret r
     //@   props C15
@@ -176,7 +236,15 @@ pub mod state_handle {
     //@   props C04,C15
     //@   req[flush.async.pre.perm] forall|m: Seq<u8>| #[trigger] send_ok(m) <==> (self is Async && m == ASYNC_FLUSH_spec())
     //@   req[flush.async.pre.arm] self is Async
-    // StateHandle::shutdown (async arm) is NOT in this unit: JoinHandle::join returns Result<_, Box<dyn Any + Send>> (dyn with two traits: outside Verus)
+    //@ fn src/writers/file_log_writer/state_handle.rs impl StateHandle / fn shutdown
+    //@   props C04,C15
+    //@   rule R21 *
+    //@   rule R3 *
+    //@   closure ~th.join() ## sig |th: JoinHandle<()>| -> (r: Option<()>)
+    //@   closure ~th.join() ## ens joined()
+    //@   req[shutdown.async.pre.perm] forall|m: Seq<u8>| #[trigger] send_ok(m) <==> (self is Async && m == ASYNC_SHUTDOWN_spec())
+    //@   req[shutdown.async.pre.arm] self is Async
+    //@   ens[StateHandle::shutdown.async.post.joined] !self.thread_lock_poisoned() && self.thread_present() ==> joined()
     }
 }
 }
